@@ -413,7 +413,7 @@ def _fn_src(name, sig, kind, deco, indent):
   pad = ' ' * indent
   out = []
   if deco:
-    out.append(pad + '@gin.register')
+    out.append(pad + (deco if isinstance(deco, str) else '@gin.register'))
   out.append(pad + 'def %s(%s):' % (name, ', '.join(params)))
   out.append(pad + '  got = dict(locals())')
   if kind == 'fn':
@@ -424,16 +424,21 @@ def _fn_src(name, sig, kind, deco, indent):
   return out
 
 
+def _deco_line(d):
+  lists = ['%s=%r' % (k, list(d[n])) for k, n in (('allowlist', 'allow'), ('denylist', 'deny')) if d.get(n)]
+  return '@gin.register(%s)' % ', '.join(lists) if lists else '@gin.register'
+
+
 class DynamicRegistrationBindEngine(_RouteEngine):
   """methods, classes and functions of a module are registered by the parser (dynamic registration) -- possibly next
   to classes registered by decorators, possibly re-registering those -- and afterwards bound through every API path
   with every spelling: a method named without its class, or a parameter outside the signature, is rejected."""
   name = 'dynamic-registration-binds'
   rule = ('dynamic-registration-binds: a module (top-level or in a package, `import m` / `from p import m`) with 1-2 classes '
-          '(1-2 methods each; class registered by the parser or by decorators, then possibly re-registered by the parser) and '
-          '0-2 functions; a dynamic file of 1-4 valid statements naming methods / classes / functions; then 3-10 bindings '
+          '(1-2 methods each; class registered by the parser or by decorators -- with allowlist / denylist / neither --, then '
+          'possibly re-registered by the parser) and 0-2 functions (plain, or registered by decorator with / without lists); a dynamic file of 1-4 valid statements naming methods / classes / functions; then 3-10 bindings '
           'through string, tuple, text, text+skip_unknown, block, finalize-hook and further dynamic-file paths, spelled bare / '
-          'Class.method / module-qualified / wrong, with valid and unknown parameters, in 3 scopes; accept predicate from the '
+          'Class.method / module-qualified / wrong, with valid, unknown, listed and unlisted parameters, in 3 scopes; accept predicate from the '
           'module description, configuration compared before/after every rejection, every callable called at the end. '
           'non-trivial = a rejection through a non-string path.')
 
@@ -443,14 +448,16 @@ class DynamicRegistrationBindEngine(_RouteEngine):
   # ---- case description helpers
   @staticmethod
   def _objects(spec):
-    """objpath -> (sig, is_method, class objpath or None, registered by decorator)."""
+    """objpath -> (sig, is_method, class objpath or None, registered by decorator, allowlist, denylist)."""
     out = {}
     for f in spec['funs']:
-      out[f['name']] = (f['sig'], False, None, False)
+      deco = bool(f.get('deco'))
+      out[f['name']] = (f['sig'], False, None, deco, f.get('allow', []) if deco else [], f.get('deny', []) if deco else [])
     for c in spec['classes']:
-      out[c['name']] = (c['init'], False, None, c['route'] == 'deco')
+      deco = c['route'] == 'deco'
+      out[c['name']] = (c['init'], False, None, deco, c.get('allow', []) if deco else [], c.get('deny', []) if deco else [])
       for m in c['methods']:
-        out[c['name'] + '.' + m['name']] = (m['sig'], True, c['name'], c['route'] == 'deco' and m['deco'])
+        out[c['name'] + '.' + m['name']] = (m['sig'], True, c['name'], deco and m['deco'], [], [])
     return out
 
   @staticmethod
@@ -493,17 +500,50 @@ class DynamicRegistrationBindEngine(_RouteEngine):
     cases.append(self._case(spec, [['', 'Widget', 'size', 2], ['', 'Widget.draw', 'x', 1], ['', 'Panel.paint', 'x', 2]],
                             [['tuple', '', 'draw', 'x', 9], ['text', '', 'paint', 'x', 9], ['str', '', 'render', 'depth', 9],
                              ['block', '', 'Panel.paint', 'depth', 6], ['hook', 's1', 'draw', 'x', 9]]))
+    # a decorated class WITH an allowlist / denylist whose (plain or registered) method is named by a dynamic file --
+    # in an accepted or in a rejected statement: the class keeps the lists it was registered with, on every path
+    for lists in ({'deny': ['size']}, {'allow': ['a']}):
+      for mdeco in (False, True):
+        vault = dict({'name': 'Vault', 'route': 'deco', 'init': _SIGS[3],
+                      'methods': [{'name': 'open', 'sig': _SIGS[0], 'deco': mdeco}]}, **lists)
+        lfun = dict({'name': 'fun', 'sig': _SIGS[3], 'deco': True}, **lists)
+        spec = {'name': 'c11dyn', 'imp': 'import', 'classes': [vault], 'funs': [lfun]}
+        for setup, first in (([['', 'Vault.open', 'depth', 1], ['', 'fun', 'a', 1]], []),
+                             ([], [['dyntext', '', 'c11dyn.Vault.open', 'zz', 1], ['dyntext', '', 'c11dyn.fun', 'zz', 1]])):
+          ops = list(first)
+          for path in _PATHS:
+            q = 'c11dyn.' if path == 'dyntext' else ''
+            ops += [[path, '', q + 'Vault', 'size', 5], [path, 's1', q + 'fun', 'size', 5]]
+          ops += [['str', '', 'Vault', 'a', 6], ['text', 's1', 'Vault.open', 'depth', 2]]
+          cases.append(self._case(spec, setup, ops))
     return cases
 
   def gen(self, rng, tier):
     name, imp = rng.choice([('c11dyn', 'import'), ('c11pkg.dynm', 'import'), ('c11pkg.dynm', 'from')])
     classes = []
+
+    def gen_lists(sig):
+      names = [a for a, _ in sig['args']]
+      r = rng.random()
+      if not names or r < 0.4:
+        return {}
+      return {'allow' if r < 0.7 else 'deny': sorted(rng.sample(names, rng.randint(1, len(names))))}
+
     for cname in rng.sample(['Widget', 'Panel'], rng.randint(1, 2)):
-      route = 'dyn' if rng.random() < 0.7 else 'deco'
+      route = 'dyn' if rng.random() < 0.6 else 'deco'
       methods = [{'name': m, 'sig': rng.choice(_SIGS), 'deco': rng.random() < 0.7}
                  for m in rng.sample(['render', 'draw', 'paint'], rng.randint(1, 2))]
-      classes.append({'name': cname, 'route': route, 'init': rng.choice(_SIGS), 'methods': methods})
-    funs = [{'name': f, 'sig': rng.choice(_SIGS)} for f in rng.sample(['fun', 'helper'], rng.randint(0, 2))]
+      c = {'name': cname, 'route': route, 'init': rng.choice(_SIGS), 'methods': methods}
+      if route == 'deco':
+        c.update(gen_lists(c['init']))
+      classes.append(c)
+    funs = []
+    for f in rng.sample(['fun', 'helper'], rng.randint(0, 2)):
+      fd = {'name': f, 'sig': rng.choice(_SIGS)}
+      if rng.random() < 0.35:       # registered by decorator (possibly with lists) before the file names it
+        fd['deco'] = True
+        fd.update(gen_lists(fd['sig']))
+      funs.append(fd)
     spec = {'name': name, 'imp': imp, 'classes': classes, 'funs': funs}
     objs = self._objects(spec)
     paths_ = sorted(objs)
@@ -518,9 +558,11 @@ class DynamicRegistrationBindEngine(_RouteEngine):
     setup = []
     for _ in range(rng.randint(1, 4)):
       o = rng.choice(paths_)
-      sig = objs[o][0]
-      if sig['args'] or sig['varkw']:
-        setup.append([rng.choice(_SCOPES), o, pick_arg(sig, True), rng.choice(_VALS)])
+      sig, allow, deny = objs[o][0], objs[o][4], objs[o][5]
+      ok = [a for a in [a for a, _ in sig['args']] + (['extra'] if sig['varkw'] else [])
+            if (not allow or a in allow) and a not in deny]
+      if ok:        # every statement of the dynamic file is valid
+        setup.append([rng.choice(_SCOPES), o, rng.choice(ok), rng.choice(_VALS)])
     ops = []
     for _ in range(rng.randint(3, 10)):
       o = rng.choice(paths_)
@@ -555,11 +597,11 @@ class DynamicRegistrationBindEngine(_RouteEngine):
     name = spec['name']
     src = []
     for f in spec['funs']:
-      src += _fn_src(f['name'], f['sig'], 'fn', False, 0) + ['']
+      src += _fn_src(f['name'], f['sig'], 'fn', _deco_line(f) if f.get('deco') else False, 0) + ['']
     for c in spec['classes']:
       deco = c['route'] == 'deco'
       if deco:
-        src.append('@gin.register')
+        src.append(_deco_line(c))
       src.append('class %s:' % c['name'])
       src += _fn_src('__init__', c['init'], 'init', False, 2)
       for m in c['methods']:
@@ -586,9 +628,9 @@ class DynamicRegistrationBindEngine(_RouteEngine):
     name, root, header = spec['name'], self._root(spec), self._header(spec)
 
     def info(o, state):
-      sig, is_method, _, _ = objs[o]
-      return {'params': [a for a, _ in sig['args']], 'posonly': [], 'varkw': sig['varkw'], 'allow': [], 'deny': [],
-              'method': is_method, 'state': state, 'obj': o}
+      sig, is_method, _, _, allow, deny = objs[o]
+      return {'params': [a for a, _ in sig['args']], 'posonly': [], 'varkw': sig['varkw'], 'allow': list(allow),
+              'deny': list(deny), 'method': is_method, 'state': state, 'obj': o}
 
     table = {name + '.' + o: info(o, 'yes' if objs[o][3] else 'no') for o in objs}
     store, fails = {}, []
